@@ -232,7 +232,7 @@ def handle (j : Json) : Json :=
   let ret := if (obj? j "retval").isSome then ret else Json.null
   -- coroutine functions: does the exception (if any) surface at the call or at the await?
   let atCall := match coroCall (bool! (fld j "eager")) Wc ctx full (mkOpts o) retT (fun _ => retval) args kw with
-    | .raisedAtCall => true
+    | .raisedAtCall _ => true
     | .awaited _ => false
   Json.mkObj [("model", outcomeJson out), ("spec", spec), ("ret", ret), ("decl_ok", Json.bool (declOk full (mkOpts o))),
               ("reserve", Json.bool (firstReserve ctx full)), ("raised_at_call", Json.bool atCall),
